@@ -1,6 +1,7 @@
 import DcmVerif.Generated.Code_insertall
 import DcmVerif.Proofs.Code_content
 import DcmVerif.Proofs.Code_insert
+import DcmVerif.Proofs.Total
 /-! `DcmMetaExtension._insert` as a whole (translated from dcmmeta.py): what it does to `other` (nothing, whatever happens in
 between) and what it does to `self`, key by key. -/
 set_option autoImplicit false
@@ -564,5 +565,195 @@ theorem insert_try_per_key_on_ext [DecidableEq α] (null : α) (ss : List Nat) (
   insert_try_per_key null ss sn sd bases kc0 kc' o.shape on (toContent o) dim (validClasses o.shp) sv _
     (get_valid_classes_eq o none h3 h5) hsv (get_keys_eq o.shape _ (get_valid_classes_eq o none h3 h5) (toContent o))
     (roundKeys_nodup o hn kc0 hk sv) h
+
+end Src
+
+/-! ### what `_insert` does to one key is the step function of the model's per-key merges -/
+
+namespace Src
+variable {α κ : Type} [DecidableEq κ] [DecidableEq α]
+
+/-- the class a reclassified key ends in is valid for the shape -/
+theorem reclassifyK_class_valid (null : α) (sh : Shp) (ks : KeyState α) (oc c1 : Cls) (lv1 : List α)
+    (hks : ∀ c v, ks = some (c, v) → c ∈ validClasses sh) (hoc : oc ∈ validClasses sh)
+    (hbase : ∀ d, basePresent sh d = true → d ∈ validClasses sh)
+    (h : reclassifyK null sh ks oc = .ok (some (c1, lv1))) : c1 ∈ validClasses sh := by
+  have hcc : ∀ new, changeClassK null sh ks new = .ok (some (c1, lv1)) → new ∈ validClasses sh → c1 ∈ validClasses sh := by
+    intro new hcc hnew
+    rw [changeClassK_shape] at hcc
+    by_cases e : ks.map (·.1) = some new
+    · rw [if_pos e] at hcc
+      have : ks = some (c1, lv1) := Except.ok.inj hcc
+      exact hks c1 lv1 this
+    · rw [if_neg e] at hcc
+      cases hg : getChangedK null sh ks new with
+      | error x => rw [hg] at hcc; simp at hcc
+      | ok v =>
+        rw [hg] at hcc
+        have := Except.ok.inj hcc
+        injection this with this
+        injection this with this _
+        rw [← this]; exact hnew
+  unfold reclassifyK at h
+  simp only at h
+  by_cases h1 : ks.map (·.1) = some oc
+  · rw [if_pos h1] at h
+    exact hks c1 lv1 (Except.ok.inj h)
+  · rw [if_neg h1] at h
+    by_cases h2 : oc ∈ preserving (ks.map (·.1))
+    · rw [if_pos h2] at h
+      exact hcc oc h hoc
+    · rw [if_neg h2] at h
+      by_cases h3 : (ks.map (·.1)).any (· ∈ preserving (some oc)) = true
+      · rw [if_pos h3] at h
+        exact hks c1 lv1 (Except.ok.inj h)
+      · rw [if_neg h3] at h
+        cases hf : (preserving (ks.map (·.1))).find? (fun d => basePresent sh d && decide (d ∈ preserving (some oc))) with
+        | none => rw [hf] at h; simp at h
+        | some d =>
+          rw [hf] at h
+          have hd := List.find?_some hf
+          simp only [Bool.and_eq_true] at hd
+          exact hcc d h (hbase d hd.1)
+
+/-- **what `_insert` does to one key along a spatial axis that is not the slice axis is the model's `stepNonSliceK`**: the
+    translated reclassification followed by the translated insertion, on the dictionaries of a key held as the model holds it,
+    give the dictionaries of the model's result (or `ValueError` where the model has its error) — for a key at least one side
+    has, when `self` and `other` have the same slices, time points and vector components (a merge along a non-slice spatial
+    axis changes none of them) -/
+theorem keyStep_non_slice_eq (null : α) (e o : DExt κ α) (sd dim : Nat)
+    (h3 : 3 ≤ e.shape.length) (h5 : e.shape.length ≤ 5) (hpos : ∀ x ∈ e.shape, 0 < x) (hsl : e.sliceDim = some sd)
+    (ho3 : 3 ≤ o.shape.length) (ho5 : o.shape.length ≤ 5) (hopos : ∀ x ∈ o.shape, 0 < x) (hsd : sd < o.shape.length)
+    (hsh : o.shp (some sd) = e.shp) (hvo : validClasses o.shp = validClasses e.shp)
+    (hbase : ∀ d, basePresent e.shp d = true → d ∈ validClasses e.shp)
+    (hdim : dim < 3) (hds : dim ≠ sd)
+    (ks other : KeyState α) (hks : ∀ c v, ks = some (c, v) → c ∈ validClasses e.shp ∧ mult e.shp c ≠ 0)
+    (hother : ∀ c v, other = some (c, v) → c ∈ validClasses o.shp ∧ mult o.shp c ≠ 0)
+    (hnn : ¬ (ks = none ∧ other = none))
+    (valid : List Cls) (oc : Content κ α) (k : κ) (hov : Content.valuesAndClass valid oc k = other) :
+    keyStep null e.shape (e.sliceDim.map fun d => e.shape.getD d 1) (some sd) (contentOf' e) o.shape
+        (o.sliceDim.map fun d => o.shape.getD d 1) valid oc dim (otherClass other) k (toDict ks) =
+      errV ((stepNonSliceK null e.shp ks other).map toDict) := by
+  have hslS : e.sliceDim.isSome = true := by rw [hsl]; rfl
+  have hocv : otherClass other ∈ validClasses e.shp := by
+    cases other with
+    | none =>
+      show gconst ∈ validClasses e.shp
+      unfold validClasses; split
+      · simp
+      · split
+        · simp
+        · split <;> simp
+    | some p => obtain ⟨c, v⟩ := p; rw [← hvo]; exact (hother c v rfl).1
+  obtain ⟨c1, lv1, hr, _⟩ := Total.reclassifyK_ok null e.shp ks other
+  have hc1 := reclassifyK_class_valid null e.shp ks (otherClass other) c1 lv1 (fun c v h => (hks c v h).1) hocv hbase hr
+  unfold keyStep keyRecl keyIns stepNonSliceK
+  rw [if_neg hnn, reclassify_eq null e h3 h5 hpos hslS ks hks (otherClass other), hr]
+  simp only [Except.map, errV, ok_bind']
+  rw [insert_dispatch_eq]
+  have hne : ¬ (some dim = some sd) := fun h => hds (Option.some.inj h)
+  rw [if_neg hne, if_pos hdim, hov]
+  have key := insert_non_slice_eq null e o sd h3 h5 ho3 ho5 hopos hsd c1 lv1 hc1 other hother (contentOf' e)
+  rw [hsh] at key
+  cases other <;> exact key
+
+theorem shape_getD_pos (l : List Nat) (hpos : ∀ x ∈ l, 0 < x) (i : Nat) : 0 < l.getD i 1 := by
+  rw [List.getD_eq_getElem?_getD]
+  cases h : l[i]? with
+  | none => simp
+  | some x => exact hpos x (List.mem_of_getElem? h)
+
+/-- with a slice dimension and positive axis lengths every classification has at least one value -/
+theorem mult_ne_zero (e : DExt κ α) (hpos : ∀ x ∈ e.shape, 0 < x) (hsl : e.sliceDim.isSome = true) (c : Cls) :
+    mult e.shp c ≠ 0 := by
+  have hS : 0 < e.shp.S := by
+    unfold DExt.shp
+    cases hd : e.sliceDim with
+    | none => rw [hd] at hsl; cases hsl
+    | some d => exact shape_getD_pos e.shape hpos d
+  have hT : 0 < e.shp.T := shape_getD_pos e.shape hpos 3
+  have hV : 0 < e.shp.V := shape_getD_pos e.shape hpos 4
+  have hh : e.shp.hasSlice = true := hsl
+  cases c <;> simp only [mult, hh, if_true] <;>
+    first | exact Nat.one_ne_zero | exact Nat.ne_of_gt (Nat.mul_pos (Nat.mul_pos hS hT) hV)
+          | exact Nat.ne_of_gt (Nat.mul_pos hT hV) | exact Nat.ne_of_gt hS | exact Nat.ne_of_gt hV
+          | exact Nat.ne_of_gt (Nat.mul_pos hS hT)
+
+theorem gconst_valid (sh : Shp) : gconst ∈ validClasses sh := by
+  unfold validClasses; split
+  · simp
+  · split
+    · simp
+    · split <;> simp
+
+/-- **what `_insert` does to one key along the slice axis is the model's `stepSliceK`** -/
+theorem keyStep_slice_eq (null : α) (e o : DExt κ α) (sd : Nat)
+    (h3 : 3 ≤ e.shape.length) (h5 : e.shape.length ≤ 5) (hpos : ∀ x ∈ e.shape, 0 < x) (hsl : e.sliceDim = some sd)
+    (hosl : o.sliceDim.isSome = true)
+    (ho3 : 3 ≤ o.shape.length) (ho5 : o.shape.length ≤ 5) (hopos : ∀ x ∈ o.shape, 0 < x) (hsd : sd < o.shape.length)
+    (hsh : o.shp (some sd) = { e.shp with S := 1 }) (hvo : ∀ c ∈ validClasses o.shp, c ∈ validClasses e.shp)
+    (hbase : ∀ d, basePresent e.shp d = true → d ∈ validClasses e.shp)
+    (ks other : KeyState α) (hks : ∀ c v, ks = some (c, v) → c ∈ validClasses e.shp ∧ mult e.shp c ≠ 0)
+    (hother : ∀ c v, other = some (c, v) → c ∈ validClasses o.shp ∧ mult o.shp c ≠ 0)
+    (hnn : ¬ (ks = none ∧ other = none))
+    (valid : List Cls) (oc : Content κ α) (k : κ) (hov : Content.valuesAndClass valid oc k = other) :
+    keyStep null e.shape (e.sliceDim.map fun d => e.shape.getD d 1) (some sd) (contentOf' e) o.shape
+        (o.sliceDim.map fun d => o.shape.getD d 1) valid oc sd (otherClass other) k (toDict ks) =
+      errV ((stepSliceK null e.shp ks other).map toDict) := by
+  have hslS : e.sliceDim.isSome = true := by rw [hsl]; rfl
+  have hocv : otherClass other ∈ validClasses e.shp := by
+    cases other with
+    | none => exact gconst_valid _
+    | some p => obtain ⟨c, v⟩ := p; exact hvo c (hother c v rfl).1
+  obtain ⟨c1, lv1, hr, _⟩ := Total.reclassifyK_ok null e.shp ks other
+  have hc1 := reclassifyK_class_valid null e.shp ks (otherClass other) c1 lv1 (fun c v h => (hks c v h).1) hocv hbase hr
+  unfold keyStep keyRecl keyIns stepSliceK
+  rw [if_neg hnn, reclassify_eq null e h3 h5 hpos hslS ks hks (otherClass other), hr]
+  simp only [Except.map, errV, ok_bind']
+  rw [insert_dispatch_eq, if_pos rfl, hov]
+  have key := insert_slice_eq null e o sd h3 h5 hpos hslS hosl hbase ho3 ho5 hopos hsd c1 lv1 hc1
+    (mult_ne_zero e hpos hslS c1) other hother
+  rw [hsh] at key
+  cases other <;> exact key
+
+/-- **what `_insert` does to one key along the time (3) or vector (4) axis is the model's `stepSampleK`** -/
+theorem keyStep_sample_eq (null : α) (e o : DExt κ α) (sd : Nat) (isTime : Bool)
+    (h3 : 3 ≤ e.shape.length) (h5 : e.shape.length ≤ 5) (hpos : ∀ x ∈ e.shape, 0 < x) (hsl : e.sliceDim = some sd) (hsd3 : sd < 3)
+    (ho3 : 3 ≤ o.shape.length) (ho5 : o.shape.length ≤ 5) (hopos : ∀ x ∈ o.shape, 0 < x) (hsd : sd < o.shape.length)
+    (hoT : e.shape.length = 5 → 3 < o.shape.length)
+    (hsamp : (if isTime then tsamples else vsamples) ∈ validClasses e.shp)
+    (hvo : ∀ c ∈ validClasses o.shp, c ∈ validClasses e.shp)
+    (hbase : ∀ d, basePresent e.shp d = true → d ∈ validClasses e.shp)
+    (ks other : KeyState α) (hks : ∀ c v, ks = some (c, v) → c ∈ validClasses e.shp ∧ mult e.shp c ≠ 0)
+    (hother : ∀ c v, other = some (c, v) → c ∈ validClasses o.shp ∧ mult o.shp c ≠ 0)
+    (hnn : ¬ (ks = none ∧ other = none))
+    (valid : List Cls) (oc : Content κ α) (k : κ) (hov : Content.valuesAndClass valid oc k = other) :
+    keyStep null e.shape (e.sliceDim.map fun d => e.shape.getD d 1) (some sd) (contentOf' e) o.shape
+        (o.sliceDim.map fun d => o.shape.getD d 1) valid oc (if isTime then 3 else 4) (otherClass other) k (toDict ks) =
+      errV ((stepSampleK null isTime e.shp (o.shp (some sd)) ks other).map toDict) := by
+  have hslS : e.sliceDim.isSome = true := by rw [hsl]; rfl
+  have hocv : otherClass other ∈ validClasses e.shp := by
+    cases other with
+    | none => exact gconst_valid _
+    | some p => obtain ⟨c, v⟩ := p; exact hvo c (hother c v rfl).1
+  obtain ⟨c1, lv1, hr, _⟩ := Total.reclassifyK_ok null e.shp ks other
+  have hc1 := reclassifyK_class_valid null e.shp ks (otherClass other) c1 lv1 (fun c v h => (hks c v h).1) hocv hbase hr
+  unfold keyStep keyRecl keyIns stepSampleK
+  rw [if_neg hnn, reclassify_eq null e h3 h5 hpos hslS ks hks (otherClass other), hr]
+  simp only [Except.map, errV, ok_bind']
+  rw [insert_dispatch_eq, hov]
+  have key := insert_sample_eq null e o sd isTime h3 h5 hpos hslS ho3 ho5 hopos hsd hoT hsamp c1 lv1 hc1
+    (mult_ne_zero e hpos hslS c1) other hother (contentOf' e)
+  cases isTime with
+  | true =>
+    have hne : ¬ (some 3 = some sd) := fun h => by have := Option.some.inj h; omega
+    simp only [if_true] at key ⊢
+    rw [if_neg hne, if_neg (by omega : ¬ (3 < 3))]
+    cases other <;> exact key
+  | false =>
+    have hne : ¬ (some 4 = some sd) := fun h => by have := Option.some.inj h; omega
+    simp only [Bool.false_eq_true, if_false] at key ⊢
+    rw [if_neg hne, if_neg (by omega : ¬ (4 < 3)), if_neg (by omega : ¬ (4 = 3)), if_pos trivial]
+    cases other <;> exact key
 
 end Src
